@@ -1,5 +1,5 @@
 import Firebolt.Properties.C01
-import Firebolt.Properties.ExecFlow
+import Firebolt.Properties.ExecCompose
 /-!
 # C03 — Clean shutdown drains the whole pipeline and orders node lifecycles
 The invariants under every interleaving are proved on the node component model (`Properties/ExecCascade.lean`, imported by
@@ -51,5 +51,23 @@ open Firebolt.Exec in
 theorem drained_at_quiescence (c : Cfg) (caps : Nat → Nat) (disc : Nat → Bool) (as : List Act) (s : St)
     (hr : run c (init c caps disc) as = some s) (ht : Terminal c s) : s.upSent = s.recvd ∧ s.recvd.Perm s.resolved ∧ s.inp = [] :=
   terminal_drained c s (reachable_all c caps disc as s hr) ht
+
+
+/-! ### the contract that composes components into a tree (ExecCompose) -/
+open Firebolt.Exec in
+/-- parent side: once a child's (or the handler's) channel is closed the parent never sends on it nor closes it again -/
+theorem parent_silent_after_close (c : Cfg) (caps : Nat → Nat) (disc : Nat → Bool) (as : List Act) (s s' : St)
+    (hr : run c (init c caps disc) as = some s) (a : Act) (k : Nat) (hk : (s.outs k).closed = true)
+    (hs : step c s a = some s') (hnd : ∀ j, a ≠ .downRecv j) :
+    s'.enq k = s.enq k ∧ s'.offered k = s.offered k ∧ (s'.outs k).closed = true ∧ s'.panic = false :=
+  after_close_silent c s s' a (reachable_inv c caps disc as s hr) k hk hs hnd
+
+open Firebolt.Exec in
+/-- child side: while its input is open the child accepts a send or the close from upstream in every state, and nothing the
+child does itself closes its input -/
+theorem child_accepts_upstream (c : Cfg) (s : St) (h : s.inpClosed = false) (e : Ev) :
+    (step c s (.upSend e)).isSome = true ∧ (step c s .upClose).isSome = true ∧
+    (∀ a s', step c s a = some s' → a ≠ .upClose → s'.inpClosed = false) :=
+  ⟨(upstream_enabled c s h e).1, (upstream_enabled c s h e).2, fun a s' hs hne => by rw [own_actions_keep_input_open c s s' a hs hne]; exact h⟩
 
 end Firebolt.C03
